@@ -692,6 +692,10 @@ def judge_limits_server(prefix, c, r, stats):
             break
         if v != 'accept' or m.closes:
             stats["unjudged"] = stats.get("unjudged", 0) + 1
+            # the band (limit between the two measures of the header section) exists whatever the reference's verdict is:
+            # inside it accept/reject may depend on the segmentation, so the metamorphic comparison must be skipped too
+            if mh is not None and getattr(m, "hdr_content", None) is not None and m.hdr_content <= mh < (m.hdr_wire + getattr(m, "trailer_wire", 0)):
+                band = True
             break
         n = len(m.body)
         over_h = mh is not None and m.hdr_content > mh
@@ -770,6 +774,8 @@ def judge_limits_client(prefix, c, r, stats):
             break
         if v != 'accept' or m.interim:
             stats["unjudged"] = stats.get("unjudged", 0) + 1
+            if mh is not None and getattr(m, "hdr_content", None) is not None and m.hdr_content <= mh < (m.hdr_wire + getattr(m, "trailer_wire", 0)):
+                band = True   # see judge_limits_server
             break
         n = len(m.body)
         over_h = mh is not None and m.hdr_content > mh
